@@ -73,6 +73,7 @@ class Sim:
         self.on_event = None         # crash trigger hook: fn(kind) called at every crash-eligible event
         self.starved = 0
         self.sql_errors_in_a_row = {}
+        self.foreign_lock = None     # (connection, virtual release time) of a simulated other process
         self._rr_last = -1
         self._alive = 0
         self._lock = threading.Lock()
